@@ -6,6 +6,7 @@ From Coq Require Import List NArith ZArith Bool.
 From Coq Require Import Permutation.
 From Snow Require Import Model.Broker Proofs.BrokerProofs Proofs.BrokerSteps Proofs.BrokerThms.
 From Snow Require Import Model.GoHeap Proofs.GoHeapProofs Proofs.BrokerHeapProofs.
+From Snow Require Import Model.BrokerImpl Proofs.BrokerKeys Proofs.BrokerImplProofs.
 Import ListNotations.
 Open Scope N_scope.
 
@@ -32,20 +33,20 @@ Proof. exact inheap_iff_waiting. Qed.
 
 (* A client (naming a known bridge) is refused exactly when no proxy of its eligible pool is waiting,
    and then the answer is 'no proxies' and nothing else changes. *)
-Theorem C03_refusal_iff : forall v s n fp o ch s',
-  step v s (L_Client n fp o ch) = Some s' -> lookup fp (bridges s) <> None ->
+Theorem C03_refusal_iff : forall v s n ofp o ch s',
+  step v s (L_Client n ofp o ch) = Some s' -> lookup (fp_of ofp) (bridges s) <> None ->
   (ch = None <-> forall e, In e (entries s) -> eligible n e = false) /\
-  (ch = None -> done_clients s' = (next_cid s, n, fp, o, CNoProxies) :: done_clients s /\ entries s' = entries s).
+  (ch = None -> done_clients s' = (next_cid s, n, fp_of ofp, o, CNoProxies) :: done_clients s /\ entries s' = entries s).
 Proof. exact refusal_iff. Qed.
 
 (* The proxy a client is given is waiting, eligible, and has the smallest self-reported client count
    among all eligible waiting proxies. *)
-Theorem C03_least_loaded : forall v s n fp o p s',
-  step v s (L_Client n fp o (Some p)) = Some s' ->
+Theorem C03_least_loaded : forall v s n ofp o p s',
+  step v s (L_Client n ofp o (Some p)) = Some s' ->
   exists e, nth_error (entries s) p = Some e /\ eligible n e = true /\
     (forall e', In e' (entries s) -> eligible n e' = true -> e_clients e <= e_clients e') /\
     exists c, nth_error (entries s') p = Some (set_cl (Some c) (set_heap_live false (e_live e) e)) /\
-              c_nat c = n /\ c_fp c = fp /\ c_offer c = o /\ c_pc c = C_Send.
+              c_nat c = n /\ c_fp c = fp_of ofp /\ c_offer c = o /\ c_pc c = C_Send.
 Proof. exact least_loaded. Qed.
 
 (* The relational pool above is what the real data structure delivers: the broker's SnowflakeHeap is Go's
@@ -68,13 +69,93 @@ Example C03_array_heap_example :
   ([(0%nat, 15)], Some (1%nat, 9)).
 Proof. vm_compute. reflexivity. Qed.
 
+(* ---- the pointer level: what `broker heap` runs against broker/snowflake-heap.go (Model/BrokerHeap.v [xstep]:
+   the slice of *Snowflake, every element carrying the `index` field written by Swap/Push/Pop). ---- *)
+
+(* it is the list-level heap above, element for element, after every operation sequence ... *)
+Theorem C03_pointer_heap_is_list_heap : forall ops,
+  map x_el (h_arr (xrun ops sheap_empty)) = fold_left hstep ops [].
+Proof. exact array_is_list_heap. Qed.
+
+(* ... and SnowflakeHeap's index bookkeeping is consistent: after ANY sequence of Push / guarded Pop / guarded
+   Remove(i) / Fix every element's `index` equals its position in the slice, and every element that was handed
+   back by Pop or Remove holds index -1 (what the proxy-timeout path of broker.go relies on). *)
+Theorem C03_heap_index_consistent : forall ops,
+  let h := xrun ops sheap_empty in
+  (forall i x, nth_error (h_arr h) i = Some x -> x_idx x = Z.of_nat i) /\
+  (forall e, In e (h_out h) -> x_idx e = (-1)%Z).
+Proof. exact index_consistent. Qed.
+
+Example C03_heap_index_example :
+  let h := xrun [HPush (1%nat, 5); HPush (2%nat, 2); HPush (3%nat, 2); HPop; HRemove 1; HFix 0 0] sheap_empty in
+  h_arr h = [mkx (3%nat, 0) 0] /\ h_out h = [mkx (2%nat, 2) (-1); mkx (1%nat, 5) (-1)].
+Proof. vm_compute. split; reflexivity. Qed.
+
+(* ---- refinement: the matching machine over the two array heaps (Model/BrokerImpl.v [istep], run against the Go code
+   as `broker irun`: AddSnowflake = heap.Push, matchSnowflake = heap.Pop when Len() > 0, the waiter's timeout
+   critical section = read the element's `index`, heap.Remove unless -1) against the relational machine [step].
+   [Rel st]: for each NAT class, the multiset of (poll, client count) in the slice IS the relational pool
+   {entries of that class with e_inheap}, the slice is heap ordered, `index` = position, what left holds -1. ---- *)
+
+(* every step of the array-heap machine is a step of the relational machine for the same request (for a client
+   poll: with the proxy that heap.Pop returned as the relational choice), and re-establishes the relation *)
+Theorem C03_array_heap_refines_pool : forall v st l st',
+  Rel st -> istep v st l = Some st' ->
+  (exists l', step v (i_s st) l' = Some (i_s st') /\ same_request l l') /\ Rel st'.
+Proof. exact istep_refines. Qed.
+
+(* it never refuses what the relational machine allows: heap.Pop / heap.Remove are called with valid arguments and
+   what matchSnowflake returns is always a choice the relational machine admits (eligible, minimal) *)
+Theorem C03_array_heap_never_refuses : forall v st l s',
+  Rel st -> step v (i_s st) l = Some s' -> exists st', istep v st l = Some st'.
+Proof. exact istep_enabled. Qed.
+
+(* hence every state of an array-heap run is a reachable state of the relational machine (all of C02, C03, C04
+   apply to it) and satisfies the relation *)
+Theorem C03_array_heap_runs : forall v br ls st,
+  irun v (iinit br) ls = Some st -> reachable v br (i_s st) /\ Rel st.
+Proof. exact irun_refines. Qed.
+
+(* C03_refusal_iff / C03_least_loaded delivered by the array implementation: after any run, a client (naming a known
+   bridge) is refused only when no proxy of its pool waits, and is otherwise given an eligible waiting proxy with
+   the smallest client count *)
+Theorem C03_array_heap_least_loaded : forall v br ls st n ofp o ch st',
+  irun v (iinit br) ls = Some st -> istep v st (L_Client n ofp o ch) = Some st' ->
+  lookup (fp_of ofp) (bridges (i_s st)) <> None ->
+  (forall e, In e (entries (i_s st)) -> eligible n e = false) /\ entries (i_s st') = entries (i_s st) /\
+    done_clients (i_s st') = (next_cid (i_s st), n, fp_of ofp, o, CNoProxies) :: done_clients (i_s st)
+  \/ exists p e, nth_error (entries (i_s st)) p = Some e /\ eligible n e = true /\
+       (forall e', In e' (entries (i_s st)) -> eligible n e' = true -> e_clients e <= e_clients e') /\
+       exists c, nth_error (entries (i_s st')) p = Some (set_cl (Some c) (set_heap_live false (e_live e) e)) /\ c_offer c = o.
+Proof. exact impl_client_least_loaded. Qed.
+
+(* a poll that left the pool never returns to it (used by C02_poll_gets_at_most_one_offer) *)
+Theorem C03_left_pool_forever : forall v s l s' p e,
+  step v s l = Some s' -> nth_error (entries s) p = Some e -> e_inheap e = false ->
+  exists e', nth_error (entries s') p = Some e' /\ e_inheap e' = false.
+Proof. exact left_pool_forever. Qed.
+
+(* non-vacuity: three unrestricted proxies with loads 5, 2, 2 and a restricted one; the middle one expires (its
+   waiter removes it at its index), a client is given a load-2 proxy (whatever choice was written in the label), the
+   next one the load-5 proxy, the third is refused; an unrestricted client is served from the other heap. *)
+Example C03_array_heap_machine_example :
+  exists st, irun V1 (iinit [(7, 9)])
+    [L_Poll 1 NatUnrestricted 1 5; L_Poll 2 NatUnrestricted 1 2; L_Poll 3 NatUnrestricted 1 2; L_Poll 4 NatRestricted 1 0;
+     L_FireW 1; L_WTake 1; L_WTimeoutCS 1;
+     L_Client NatRestricted (Some 7) 100 None; L_Client NatUnknown (Some 7) 101 None; L_Client NatRestricted (Some 7) 102 None;
+     L_Client NatUnrestricted (Some 7) 103 None] = Some st /\
+  map (fun e => option_map c_offer (e_cl e)) (entries (i_s st)) = [Some 101; None; Some 100; Some 103] /\
+  map (fun '(cid, _, _, _, r) => (cid, r)) (done_clients (i_s st)) = [(2%nat, CNoProxies)] /\
+  h_arr (i_hu st) = [] /\ map x_idx (h_out (i_hu st)) = [(-1)%Z; (-1)%Z; (-1)%Z].
+Proof. eexists. vm_compute. repeat split. Qed.
+
 (* non-vacuity: with loads 5 and 2 waiting, the client is given the proxy with load 2 and cannot be given the other *)
 Example C03_example :
   let s0 := run V1 (init [(7, 9)]) [L_Poll 1 NatUnrestricted 1 5; L_Poll 2 NatUnrestricted 1 2] in
-  (exists s, s0 = Some s /\ step V1 s (L_Client NatRestricted 7 100 (Some 1%nat)) <> None /\
-             step V1 s (L_Client NatRestricted 7 100 (Some 0%nat)) = None /\
-             step V1 s (L_Client NatRestricted 7 100 None) = None /\
-             step V1 s (L_Client NatUnrestricted 7 100 None) <> None).
+  (exists s, s0 = Some s /\ step V1 s (L_Client NatRestricted (Some 7) 100 (Some 1%nat)) <> None /\
+             step V1 s (L_Client NatRestricted (Some 7) 100 (Some 0%nat)) = None /\
+             step V1 s (L_Client NatRestricted (Some 7) 100 None) = None /\
+             step V1 s (L_Client NatUnrestricted (Some 7) 100 None) <> None).
 Proof. eexists. split; [vm_compute; reflexivity|]. repeat split; vm_compute; congruence. Qed.
 
 (* Absent/empty NAT on the wire (C12's decoders) composed with the pool selection: a client that sends no NAT
